@@ -163,7 +163,7 @@ func (g *gen) idx(n int, d int) string {
 }
 
 // risky says whether to emit the unguarded (possibly panicking) variant.
-func (g *gen) risky(label string) bool { return g.chance(14, label) }
+func (g *gen) risky(label string) bool { return g.chance(9, label) }
 
 var arithOps = []string{"+", "-", "*", "&", "|", "^", "&^", "+", "-"}
 
